@@ -9,17 +9,20 @@ import (
 
 // IMPORT/CONFIG family (C11, C07, C13): one file per program, each with its own import block.
 //
-//	imp | decl | elem | ret
+//	imp | decl | elem | ret | call
 
 var impModes = []string{"dot", "named", "renamed", "dot+seq", "named+seqrenamed"}
 var impDecls = []string{"func", "method", "generic", "genericmethod", "litassigned", "litcalled", "nestedlit", "litinclosure"}
 var impElems = []string{"int", "string", "struct", "pointer", "func", "any", "slice", "iter"}
 var impRets = []string{"nil", "named"}
-var impBase = []string{"dot", "func", "int", "nil"}
+var impCalls = []string{"plain", "inst"} // API calls with inferred / explicitly written type arguments
+var impBase = []string{"dot", "func", "int", "nil", "plain"}
 
-type impProg struct{ imp, decl, elem, ret string }
+type impProg struct{ imp, decl, elem, ret, call string }
 
-func (p impProg) key() string { return strings.Join([]string{p.imp, p.decl, p.elem, p.ret}, "|") }
+func (p impProg) key() string {
+	return strings.Join([]string{p.imp, p.decl, p.elem, p.ret, p.call}, "|")
+}
 
 func (p impProg) text(id string) string {
 	q := "" // qualifier of the API
@@ -68,8 +71,14 @@ func (p impProg) text(id string) string {
 	if p.ret == "named" {
 		res, ret = "(_ "+iterT+")", "return"
 	}
+	inst := func(t string) string { // explicit type argument of an API call
+		if p.call == "inst" {
+			return "[" + t + "]"
+		}
+		return ""
+	}
 	body := func(ind string) string {
-		return fmt.Sprintf("%s%sYield(%s)\n%sc.E(5)\n%s%sYield(%s)\n%s%s\n", ind, q, v1, ind, ind, q, v2, ind, ret)
+		return fmt.Sprintf("%s%sYield%s(%s)\n%sc.E(5)\n%s%sYield%s(%s)\n%s%s\n", ind, q, inst(T), v1, ind, ind, q, inst(T), v2, ind, ret)
 	}
 	var sb strings.Builder
 	sb.WriteString("package src\n\nimport (\n")
@@ -104,10 +113,10 @@ func (p impProg) text(id string) string {
 		sb.WriteString(fmt.Sprintf("type %s_t struct{ c *rt.Ctx }\n\nfunc (t %s_t) Gen() %s {\n\tc := t.c\n%s}\n\n", id, id, res, body("\t")))
 		get = id + "_t{c}.Gen()"
 	case "generic":
-		sb.WriteString(fmt.Sprintf("func %s_g[E any](c *rt.Ctx, xs ...E) %sIter[E] {\n\tfor _, x := range xs {\n\t\t%sYield(x)\n\t\tc.E(5)\n\t}\n\treturn nil\n}\n\n", id, q, q))
+		sb.WriteString(fmt.Sprintf("func %s_g[E any](c *rt.Ctx, xs ...E) %sIter[E] {\n\tfor _, x := range xs {\n\t\t%sYield%s(x)\n\t\tc.E(5)\n\t}\n\treturn nil\n}\n\n", id, q, q, inst("E")))
 		get = fmt.Sprintf("%s_g[%s](c, %s, %s)", id, T, v1, v2)
 	case "genericmethod":
-		sb.WriteString(fmt.Sprintf("type %s_box[E any] struct {\n\tc  *rt.Ctx\n\txs []E\n}\n\nfunc (b %s_box[E]) Gen() %sIter[E] {\n\tfor _, x := range b.xs {\n\t\t%sYield(x)\n\t\tb.c.E(5)\n\t}\n\treturn nil\n}\n\n", id, id, q, q))
+		sb.WriteString(fmt.Sprintf("type %s_box[E any] struct {\n\tc  *rt.Ctx\n\txs []E\n}\n\nfunc (b %s_box[E]) Gen() %sIter[E] {\n\tfor _, x := range b.xs {\n\t\t%sYield%s(x)\n\t\tb.c.E(5)\n\t}\n\treturn nil\n}\n\n", id, id, q, q, inst("E")))
 		get = fmt.Sprintf("%s_box[%s]{c, []%s{%s, %s}}.Gen()", id, T, T, v1, v2)
 	}
 	sb.WriteString(fmt.Sprintf("func %s(c *rt.Ctx) {\n", id))
@@ -119,10 +128,10 @@ func (p impProg) text(id string) string {
 		sb.WriteString(fmt.Sprintf("\tit := func() %s {\n%s\t}()\n", res, body("\t\t")))
 		get = "it"
 	case "nestedlit":
-		sb.WriteString(fmt.Sprintf("\tg := func() %s {\n\t\t%sYieldFrom(func() %s {\n%s\t\t}())\n\t\tc.E(6)\n\t\treturn nil\n\t}\n", iterT, q, res, body("\t\t\t")))
+		sb.WriteString(fmt.Sprintf("\tg := func() %s {\n\t\t%sYieldFrom%s(func() %s {\n%s\t\t}())\n\t\tc.E(6)\n\t\treturn nil\n\t}\n", iterT, q, inst(T), res, body("\t\t\t")))
 		get = "g()"
 	case "litinclosure":
-		sb.WriteString(fmt.Sprintf("\tg := func() %s {\n\t\tmk := func() %s {\n\t\t\tc.E(7)\n\t\t\treturn func() %s {\n%s\t\t\t}()\n\t\t}\n\t\t%sYieldFrom(mk())\n\t\treturn nil\n\t}\n", iterT, iterT, res, body("\t\t\t\t"), q))
+		sb.WriteString(fmt.Sprintf("\tg := func() %s {\n\t\tmk := func() %s {\n\t\t\tc.E(7)\n\t\t\treturn func() %s {\n%s\t\t\t}()\n\t\t}\n\t\t%sYieldFrom%s(mk())\n\t\treturn nil\n\t}\n", iterT, iterT, res, body("\t\t\t\t"), q, inst(T)))
 		get = "g()"
 	}
 	sb.WriteString(fmt.Sprintf("\tsrc := %s\n\tfor v := range src {\n\t\tc.X(8, %s)\n\t}\n\tc.E(9)\n}\n", get, show))
@@ -136,16 +145,18 @@ func importFamily(tier string) *FamilySpec {
 		for _, d := range impDecls {
 			for _, e := range impElems {
 				for _, rt := range impRets {
-					parts := []string{im, d, e, rt}
-					if tier != "thorough" && distance(parts, impBase) > 2 {
-						continue
+					for _, cl := range impCalls {
+						parts := []string{im, d, e, rt, cl}
+						if tier != "thorough" && distance(parts, impBase) > 2 {
+							continue
+						}
+						if (d == "generic" || d == "genericmethod") && rt == "named" {
+							continue
+						}
+						p := impProg{im, d, e, rt, cl}
+						id := fmt.Sprintf("P%05d", len(fs.Progs))
+						fs.Progs = append(fs.Progs, pipeline.Prog{ID: id, Key: p.key(), S: p.text(id), Proc: true, OwnFile: true})
 					}
-					if (d == "generic" || d == "genericmethod") && rt == "named" {
-						continue
-					}
-					p := impProg{im, d, e, rt}
-					id := fmt.Sprintf("P%05d", len(fs.Progs))
-					fs.Progs = append(fs.Progs, pipeline.Prog{ID: id, Key: p.key(), S: p.text(id), Proc: true, OwnFile: true})
 				}
 			}
 		}
